@@ -96,23 +96,39 @@ fn install_hook() {
 // The payload universe and the reference model of a data set
 // ======================================================================
 
-/// The six payload items of the universe. `A1a` and `A1b` are two ASPA
-/// records of the SAME customer with different provider lists.
+/// The payload items of the universe, boundary-dense per field:
+/// * origins: an ordinary v4 and v6 one; 0.0.0.0/0 with max-len = prefix len
+///   and AS 0; a v4 host prefix (/32-32, max-len = family maximum) with AS
+///   2^32-1; ::/0 with max-len 128; a v6 host prefix with AS 0;
+/// * router keys: 91 octets of key info; NO key info at all (all-zero SKI,
+///   AS 2^32-1);
+/// * ASPA: customer 1 with five providers (`A1a`), four others (`A1b`) and
+///   with NONE (`A1e`) — three records of the SAME customer; customer 2 with
+///   four providers; a customer with one provider equal to itself (AS
+///   2^32-1); customer AS 0 with seventeen providers (AS 0 and 2^32-1 among
+///   them).
 #[derive(Clone, Copy, Debug, PartialEq, Eq, PartialOrd, Ord, Hash)]
-enum Item { O4, O6, K, A1a, A1b, A2 }
+enum Item { O4, O4z, O4h, O6, O6z, O6h, K, K2, A1a, A1b, A1e, A2, A4, A5 }
 
-const UNIVERSE: [Item; 6] = [Item::O4, Item::O6, Item::K, Item::A1a, Item::A1b, Item::A2];
+/// Grouped by type, types in the order the protocol got them.
+const UNIVERSE: [Item; 14] = [Item::O4, Item::O4z, Item::O4h, Item::O6, Item::O6z, Item::O6h, Item::K, Item::K2,
+    Item::A1a, Item::A1b, Item::A1e, Item::A2, Item::A4, Item::A5];
+/// Types interleaved: for version 0 and for version 1 an item the version
+/// cannot carry precedes one it can, in every set that has both.
+const MIXED: [Item; 14] = [Item::K, Item::O4, Item::A1a, Item::A1b, Item::A1e, Item::O6, Item::A4, Item::O4z, Item::K2,
+    Item::O6z, Item::A2, Item::O4h, Item::A5, Item::O6h];
 
-/// The fixed family of payload subsets the source can hold.
+/// The fixed family of payload subsets the source can hold (kept at eight:
+/// the boundary items live inside the sets instead of multiplying them).
 const SETS: [&[Item]; 8] = [
     &[],
-    &[Item::O4],
-    &[Item::O6],
-    &[Item::K],
+    &[Item::O4z, Item::O4h],
+    &[Item::O6z, Item::O6h],
+    &[Item::K2],
     &[Item::A1a],
-    &[Item::A1b],
-    &[Item::O4, Item::O6, Item::K, Item::A1a, Item::A2],
-    &[Item::O6, Item::K, Item::A1b, Item::A2],
+    &[Item::A1e],
+    &[Item::O4, Item::O6, Item::K, Item::A1a, Item::A2, Item::A4],
+    &[Item::O6, Item::O4h, Item::K, Item::K2, Item::A1b, Item::A5],
 ];
 
 const KEY_SKI: [u8; 20] = [0x11, 0x22, 0x33, 0x44, 0x55, 0x66, 0x77, 0x88, 0x99, 0xAA, 1, 2, 3, 4, 5, 6, 7, 8, 9, 10];
@@ -132,18 +148,27 @@ enum Entry {
 fn item_entry(i: Item) -> Entry {
     match i {
         Item::O4 => Entry::Origin { addr: IpAddr::V4(Ipv4Addr::new(192, 0, 2, 0)), len: 24, max: 26, asn: 64496 },
+        Item::O4z => Entry::Origin { addr: IpAddr::V4(Ipv4Addr::new(0, 0, 0, 0)), len: 0, max: 0, asn: 0 },
+        Item::O4h => Entry::Origin { addr: IpAddr::V4(Ipv4Addr::new(198, 51, 100, 7)), len: 32, max: 32, asn: u32::MAX },
         Item::O6 => Entry::Origin { addr: IpAddr::V6(Ipv6Addr::new(0x2001, 0xdb8, 0, 0, 0, 0, 0, 0)), len: 32, max: 48, asn: 64497 },
+        Item::O6z => Entry::Origin { addr: IpAddr::V6(Ipv6Addr::new(0, 0, 0, 0, 0, 0, 0, 0)), len: 0, max: 128, asn: 64499 },
+        Item::O6h => Entry::Origin { addr: IpAddr::V6(Ipv6Addr::new(0x2001, 0xdb8, 0, 0, 0, 0, 0, 1)), len: 128, max: 128, asn: 0 },
         Item::K => Entry::Key { ski: KEY_SKI, asn: 64498, info: key_info() },
+        Item::K2 => Entry::Key { ski: [0; 20], asn: u32::MAX, info: Vec::new() },
         Item::A1a => Entry::Aspa { customer: 64500, providers: vec![64501, 64502, 64504, 64505, 64506] },
         Item::A1b => Entry::Aspa { customer: 64500, providers: vec![64503, 64507, 64508, 64509] },
+        Item::A1e => Entry::Aspa { customer: 64500, providers: Vec::new() },
         Item::A2 => Entry::Aspa { customer: 64510, providers: vec![64501, 64511, 64512, 64513] },
+        Item::A4 => Entry::Aspa { customer: u32::MAX, providers: vec![u32::MAX] },
+        Item::A5 => Entry::Aspa { customer: 0, providers: {
+            let mut v: Vec<u32> = (0..15).map(|i| 65000 + 3 * i).collect(); v.insert(0, 0); v.push(u32::MAX); v } },
     }
 }
 
 /// Lowest protocol version that carries the item's payload type (RFC 6810:
 /// prefixes; RFC 8210: + router keys; 8210bis: + ASPA).
 fn item_min_version(i: Item) -> u8 {
-    match i { Item::O4 | Item::O6 => 0, Item::K => 1, Item::A1a | Item::A1b | Item::A2 => 2 }
+    match item_entry(i) { Entry::Origin { .. } => 0, Entry::Key { .. } => 1, Entry::Aspa { .. } => 2 }
 }
 
 /// Library payload for an item (what the source hands to the server).
@@ -220,11 +245,22 @@ fn expected_data(set: u8, version: u8) -> Data {
     d
 }
 
-const T_EVEN: (u32, u32, u32) = (31, 17, 97);
-const T_ODD: (u32, u32, u32) = (47, 23, 113);
-/// The source's timing is a function of the set it currently holds, so it
-/// changes with some updates and not with others.
-fn timing_of(set: u8) -> (u32, u32, u32) { if set % 2 == 0 { T_EVEN } else { T_ODD } }
+/// The source's timing is whatever the source says — the property does not
+/// ask it to be sensible. One triple per set, boundary-dense and unordered:
+/// the client's own default; expire == retry; expire == refresh; expire <
+/// refresh; all equal; all zero; all 2^32-1; expire between refresh and retry.
+/// Updates move between them (sane -> not sane and back).
+const TIMINGS: [(u32, u32, u32); 8] = [
+    (3600, 600, 7200),
+    (30, 100, 100),
+    (500, 20, 500),
+    (900, 10, 300),
+    (77, 77, 77),
+    (0, 0, 0),
+    (u32::MAX, u32::MAX, u32::MAX),
+    (1, 86400, 2),
+];
+fn timing_of(set: u8) -> (u32, u32, u32) { TIMINGS[set as usize % TIMINGS.len()] }
 
 // ======================================================================
 // The source (specification side of the server)
@@ -246,7 +282,7 @@ enum Order {
     Grouped,
     /// ASPA, router key, origins; in a diff all withdrawals of a step first
     Reverse,
-    /// router key, v4 origin, ASPA(customer 1), v6 origin, ASPA(customer 2):
+    /// types interleaved (see `MIXED`: router key, v4 origin, ASPA, v6 origin, ...):
     /// for version 0 and for version 1 an item the version cannot carry
     /// precedes one it can; in a diff all announcements of a step first
     Mixed,
@@ -285,8 +321,8 @@ impl Order {
         let g = UNIVERSE.iter().position(|x| *x == i).unwrap() as u8;
         match self {
             Order::Grouped => g,
-            Order::Reverse => 5 - g,
-            Order::Mixed => match i { Item::K => 0, Item::O4 => 1, Item::A1a => 2, Item::A1b => 3, Item::O6 => 4, Item::A2 => 5 },
+            Order::Reverse => UNIVERSE.len() as u8 - 1 - g,
+            Order::Mixed => MIXED.iter().position(|x| *x == i).unwrap() as u8,
         }
     }
     fn sort_set(self, items: &mut Vec<Item>) { items.sort_by_key(|i| self.rank(*i)) }
@@ -1188,7 +1224,9 @@ struct Exec {
     api_faults: Vec<String>,
 }
 
-const HORIZON: Duration = Duration::from_secs(2 * 3600 + 100);
+/// A step may wait for the refresh interval the source dictated, up to
+/// 2^32-1 s (the paused clock jumps there); beyond that it is a hang.
+const HORIZON: Duration = Duration::from_secs(u32::MAX as u64 + 2 * 3600 + 100);
 
 async fn settle() {
     // With the clock paused, time only advances when every task is idle, so
@@ -1966,8 +2004,9 @@ fn main() {
     sp.set("version_configs", json!(vconfigs.iter().map(|(c, l, m)| format!("{c}/{l}/{m:?}")).collect::<Vec<_>>()));
     sp.set("diff_styles(style, retained chain, orders)", json!(styles.iter().map(|s| format!("{:?}/{}/{}", s.0, s.1,
         if s.2.is_none() { "all 3 iteration orders" } else { "1 iteration order per version configuration (all 3 at version 2)" })).collect::<Vec<_>>()));
-    sp.set("iteration_orders", json!({"grouped": "O4 O6 K A1 A2; diff steps in item order", "reverse": "A2 A1 K O6 O4; withdrawals of a step first",
-        "mixed": "K O4 A1 O6 A2; announcements of a step first"}));
+    sp.set("iteration_orders", json!({"grouped": format!("{UNIVERSE:?}; diff steps in item order"), "reverse": "the reverse of grouped; withdrawals of a step first",
+        "mixed": format!("{MIXED:?}; announcements of a step first")}));
+    sp.set("payload_sets", json!(SETS.iter().enumerate().map(|(i, s)| format!("#{i} {s:?} timing {:?}", timing_of(i as u8))).collect::<Vec<_>>()));
     sp.set("ok_steps_by_iteration_order_and_version", json!(st.ok_by_order));
     sp.set("transports(client->server capacity, server->client capacity)", json!(TRANSPORTS.iter().map(|t| format!("{}: {:?}", t.name(), t.caps())).collect::<Vec<_>>()));
     sp.set("ok_steps_by_transport_and_version", json!(st.ok_by_link));
